@@ -79,6 +79,22 @@ def build_ternary(x0=(0.098, 0.083), T=1073.0, gamma=0.023, bins=75, minBins=50,
     return m
 
 
+def build_loaded_binary(rng, x0=2e-3, **cfg):
+    """Al-Zr model with a pre-existing bimodal distribution (coarse mode + a minor population of small fast-growing
+    particles) in a supersaturated matrix: precipitates exist from the first step and the step limiter is active"""
+    m = build_binary(x0=x0 * rng.uniform(0.9, 1.2), T=723.15, **cfg)
+    m.setup()
+    r1, r2 = rng.uniform(6e-9, 8e-9), rng.uniform(1.0e-9, 1.5e-9)
+    a2 = 10 ** rng.uniform(15, 17)
+
+    def bimodal(r):
+        n = 1e20 * np.exp(-((r - r1) / 0.6e-9) ** 2) + a2 * np.exp(-((r - r2) / 0.15e-9) ** 2)
+        n[n < 1] = 0
+        return n
+    m.PBM[0].LoadDistributionFunction(bimodal)
+    return m
+
+
 class Log:
     def __init__(self):
         self.mb = []       # mass-balance calls: dict(inputs..., outputs...)
